@@ -57,6 +57,19 @@ def build_initial(init: dict) -> bytes:
         out = io.BytesIO()
         D.write_zip(members, out)
         return out.getvalue()
+    if init["deck"] == "gendupimg":
+        prs = pptx.Presentation()
+        s = prs.slides.add_slide(prs.slide_layouts[6])
+        for i, tok in enumerate((2, 21)):
+            s.shapes.add_picture(io.BytesIO(image_bytes(tok)), 100000 * (i + 1), 100000)
+        b = io.BytesIO()
+        prs.save(b)
+        members = D.read_zip(io.BytesIO(b.getvalue()))
+        assert "ppt/media/image2.png" in members and members["ppt/media/image1.png"] != members["ppt/media/image2.png"]
+        members["ppt/media/image2.png"] = members["ppt/media/image1.png"]
+        out = io.BytesIO()
+        D.write_zip(members, out)
+        return out.getvalue()
     if init["deck"] == "genlogo":
         from mbt.drive import media as MD
         prs = pptx.Presentation(io.BytesIO(MD.logo_deck({"fmt": "PNG", "bytes": image_bytes(1)})))
